@@ -16,7 +16,7 @@ def N(tier, q, t):
     return max(q, min(t, int(q * SCALE)))
 
 
-AXIS_KINDS_Q = ["unit", "uniform", "geometric", "clustered", "random", "dyadic", "mesh64", "evenish"]
+AXIS_KINDS_Q = ["unit", "uniform", "geometric", "clustered", "random", "dyadic", "mesh64", "evenish", "nearly_even", "indexlike"]
 
 
 def axis_q(rng, n, kind=None):
@@ -61,6 +61,25 @@ def axis_q(rng, n, kind=None):
                 lo, hi = xs[i - 1], xs[i + 1]
                 xs[i] = lo + (hi - lo) * Fr(rng.randint(1, 15), 16)
         return xs
+    if kind == "nearly_even" and n >= 3:
+        # an even grid whose interior knots are off by a relative 2^-27 .. 2^-45 of the step (seed C16-r6m1: spacings "snapped" to their
+        # mean when they agree with it to 1e-8 — the system is then built for another axis than the one evaluated on)
+        a = Fr(rng.randint(-20, 20), rng.choice([1, 2, 4]))
+        h = Fr(rng.randint(1, 9), rng.choice([1, 2, 4, 8]))
+        xs = [a + i * h for i in range(n)]
+        for i in range(1, n - 1):
+            xs[i] += h * Fr(rng.choice([-1, 0, 1, 1]), 2 ** rng.randint(27, 45))
+        if all(x == a + i * h for i, x in enumerate(xs)):
+            xs[1] += h * Fr(1, 2 ** 29)
+        return xs
+    if kind == "indexlike" and n >= 3:
+        # starts at exactly 0 and ends at exactly n-1 like the builders' default index axis, but is uneven in between (seed C15-r6m1:
+        # a "default axis" fast path recognised by its end points only)
+        cuts = sorted({Fr(rng.randint(1, 16 * (n - 1) - 1), 16) for _ in range(3 * n)})
+        rng.shuffle(cuts)
+        xs = [Fr(0)] + sorted(cuts[:n - 2]) + [Fr(n - 1)]
+        if len(xs) == n and all(a < b for a, b in zip(xs, xs[1:])):
+            return xs
     if kind == "mesh64":
         # neighbouring interval lengths differ by factors up to 2^6
         xs = [Fr(rng.randint(-4, 4))]
@@ -124,7 +143,7 @@ def trailing_shape(rng, max_axes=3, allow_zero=False):
 
 def axis_f(rng, n, kind=None):
     """strictly increasing list of n finite f64 with finite span and finite (n-1)/span"""
-    kind = kind or rng.choice(["unit", "uniform", "geometric", "log", "ulps", "mixed", "random", "evenish", "even"])
+    kind = kind or rng.choice(["unit", "uniform", "geometric", "log", "ulps", "mixed", "random", "evenish", "even", "nearly_even", "indexlike"])
     if kind == "unit":
         return [float(i) for i in range(n)]
     if kind == "even":
@@ -134,6 +153,22 @@ def axis_f(rng, n, kind=None):
         if n >= 3 and rng.random() < 0.5:
             a = -rng.randint(1, n - 2) * h      # an interior knot is exactly 0: its neighbouring floats are subnormal
         return [a + i * h for i in range(n)]
+    if kind == "nearly_even" and n >= 3:
+        a = rng.randint(-64, 64) / 4.0
+        h = rng.randint(1, 32) / 8.0
+        xs = [a + i * h for i in range(n)]
+        for i in range(1, n - 1):
+            xs[i] += h * rng.choice([-1, 0, 1, 1]) * 2.0 ** -rng.randint(27, 40)
+        if all(x == a + i * h for i, x in enumerate(xs)):
+            xs[1] += h * 2.0 ** -29
+        if all(p < q for p, q in zip(xs, xs[1:])):
+            return xs
+    if kind == "indexlike" and n >= 3:
+        cuts = sorted({rng.randint(1, 16 * (n - 1) - 1) / 16.0 for _ in range(3 * n)})
+        rng.shuffle(cuts)
+        xs = [0.0] + sorted(cuts[:n - 2]) + [float(n - 1)]
+        if len(xs) == n and all(p < q for p, q in zip(xs, xs[1:])):
+            return xs
     if kind == "evenish" and n >= 4:
         # dyadic even grid with moved interior points (first step == mean step exactly, axis not evenly spaced)
         a = rng.randint(-64, 64) / 4.0
